@@ -98,3 +98,14 @@ class NotExecutable(Exception):
 
 def local(name):
     raise NotExecutable(name)
+
+
+def spec(fn):
+    """a named specification macro: inlined by pyvc, called as an ordinary function by rtc"""
+    import builtins
+    g = fn.__globals__
+    SPECS[fn.__name__] = fn
+    return fn
+
+
+SPECS = {}
